@@ -389,8 +389,8 @@ def run_scenario(scn, light=False, extra_init=None, keep_bundle=None, world=None
             W.write_bundle(w, bundle)
         days = w.days
         cfg = build_config(scn, bundle)
-        cfg['base']['start_date'] = str(days[scn['start_i']])
-        cfg['base']['end_date'] = str(days[scn['end_i']])
+        cfg['base']['start_date'] = scn.get('start_date') or str(days[scn['start_i']])
+        cfg['base']['end_date'] = scn.get('end_date') or str(days[scn['end_i']])
         script = scn.get('script', {})
         box = {'rec': None, 'orders': [], 'bar_k': {}}
 
